@@ -5,6 +5,7 @@ import (
 	"time"
 
 	"verif/shim/vsched"
+	"verif/shim/vsync"
 )
 
 // Sleep is a yield in the model: time is not modelled, only ordering.
@@ -46,7 +47,7 @@ func Tickers() []*Ticker {
 
 // Fire delivers one tick (dropped if the previous one is still unread, like a real ticker).
 func (t *Ticker) Fire() bool {
-	vsched.Point(vsched.KChanSend, "tick", nil)
+	vsched.Point(vsched.KChanSend, vsync.ChanKey(t.C), nil)
 	if t.stopped {
 		return false
 	}
